@@ -23,7 +23,7 @@ pub fn run(ctx: &Ctx, replay_file: Option<String>) -> ! {
          RefDual reference (true second partials); Hessian symmetric; value and gradient equal to the first-order \
          run of the same program; Dual::from(result) (owned and borrowed) keeps value, names and gradient exactly. \
          Reference rules validated by first and second central differences of the plain program for <= 2 operators. \
-         Deep formulas: nine chains of 10 .. 60 operators (Horner scheme, continued fraction, exp/log tower, cdf / inverse-cdf ping-pong, power chain, 24-term sum of products, Black-Scholes price, balanced tree of 32 leaves, sign chain), every intermediate stage judged as a program of its own, on both leaf tables. Awkward magnitudes: the unary functions at arguments 1.2e154, 1e154, 2.5e153, 1e-120, 1e-107, 7e-155, 3e-162, 1e300, 1e-300, 4e-320 - every component whose true value is representable must be right (an intermediate product leaving the range is a defect). Many-names pass: each of the 10 unary functions on a Dual2 carrying 7 .. 257 names (17 sizes, three stored orders, banded Hessian with \
+         Deep formulas: nine chains of 10 .. 60 operators (Horner scheme, continued fraction, exp/log tower, cdf / inverse-cdf ping-pong, power chain, 24-term sum of products, Black-Scholes price, balanced tree of 32 leaves, sign chain), every intermediate stage judged as a program of its own, on both leaf tables. Awkward magnitudes: the unary functions at arguments 1.2e154, 1e154, 2.5e153, 1e-120, 1e-107, 7e-155, 3e-162, 1e300, 1e-300, 4e-320 - every component whose true value is representable must be right (an intermediate product leaving the range is a defect). Unusual powers: x^p for 12 (x, p) pairs incl. whole exponents of 2^31 .. 6e9 at bases next to +-1 and large odd exponents at -1. Many-names pass: each of the 10 unary functions on a Dual2 carrying 7 .. 257 names (17 sizes, three stored orders, banded Hessian with \
          a dense first row): Hessian = f'(x) H + f''(x) g g^T by name, bitwise symmetric. \
          Non-trivial: >= 2 operators and a non-zero CROSS second partial between two different names.",
         bound,
